@@ -52,7 +52,7 @@ func VerifAccRecords(c *Codec) ([]MapRecord, error) { return c.Acc.MarshalMap() 
 // fields); VerifMarshalRec builds the real record struct the line's UnmarshalText would build
 // and returns its real MarshalMap output.
 type VerifRec struct {
-	Kind   byte // '.' SOA+NS(+glue) in one line (text mode only), 'Z' SOA, '&' NS (+glue when IP != nil), '+' address, 'C' CNAME, '\'' TXT, '@' MX (+address when IP != nil), 'M' resolver map, '8' ECS map, '%' subnet, ':' generic
+	Kind   byte // text mode only: '.' SOA+NS(+glue), 'S' SRV (port=Rtype, priority=Dist), '^' PTR, '=' A+PTR, 'B'/'H' SVCB/HTTPS (priority=Dist, params=Txt); both modes: 'Z' SOA, '&' NS (+glue when IP != nil), '+' address, 'C' CNAME, '\'' TXT, '@' MX (+address when IP != nil), 'M' resolver map, '8' ECS map, '%' subnet, ':' generic
 	Dom    []byte // owner name in text form, no trailing dot ("c.z"), "" or "." for the root
 	Wild   bool   // "*." + Dom
 	Loc    []byte // nil or 2 bytes
@@ -199,6 +199,44 @@ func VerifRecLine(r VerifRec) []byte {
 		out = verifTextUint(out, uint64(r.Dist))
 		sep()
 		tail()
+	case 'S': // Sfqdn,ip,x,port,priority,weight,ttl,timestamp,lo (port in Rtype, priority in Dist)
+		name()
+		sep()
+		out = verifTextIP(out, r.IP)
+		sep()
+		out = verifTextName(out, r.Target, false)
+		sep()
+		out = verifTextUint(out, uint64(r.Rtype))
+		sep()
+		out = verifTextUint(out, uint64(r.Dist))
+		sep()
+		out = verifTextUint(out, uint64(r.Weight))
+		sep()
+		tail()
+	case '^': // ^fqdn,p,ttl,timestamp,lo
+		name()
+		sep()
+		out = verifTextName(out, r.Target, false)
+		sep()
+		tail()
+	case '=': // =fqdn,ip,ttl,timestamp,lo
+		name()
+		sep()
+		out = verifTextIP(out, r.IP)
+		sep()
+		tail()
+	case 'B', 'H': // fqdn,target,ttl,lo,priority,params (params in Txt, verbatim)
+		name()
+		sep()
+		out = verifTextName(out, r.Target, false)
+		sep()
+		out = verifTextUint(out, uint64(r.TTL))
+		sep()
+		out = verifTextLoc(out, r.Loc)
+		sep()
+		out = verifTextUint(out, uint64(r.Dist))
+		sep()
+		out = append(out, r.Txt...)
 	case ':': // :fqdn,type,rdata,ttl,timestamp,lo
 		name()
 		sep()
